@@ -27,7 +27,7 @@ from harness import httpr_tokens as T
 MC_Q = {"Modes": '{"client"}', "Responds": '{"sync"}', "Timeouts": "{FALSE}", "Shuts": "{FALSE}", "Heads": "{FALSE, TRUE}",
         "SLs": "{1, 2, 6, 7, 9}", "RHs": "{1, 2, 3, 8}", "RH2s": "{1}", "RBs": "{1, 2, 3, 4, 7}", "Dev": 0, "Sizes": "{1, 2, 5}",
         "MaxBodies": "{2, 1000000}"}
-GEN_Q = {"SLs": "{1, 2, 3, 6, 9}", "RHs": "{1, 2, 3, 14}", "RBs": "{1, 2, 3, 4, 7}", "RH2s": "{1, 3}", "BLANKs": "{1}", "GzIdx": "{3}"}
+GEN_Q = {"SLs": "{1, 2, 3, 6, 9}", "RHs": "{1, 2, 3, 14}", "RBs": "{1, 2, 3, 7}", "RH2s": "{1}", "BLANKs": "{1}", "GzIdx": "{3}"}
 GEN_T = {"SLs": "1..19", "RHs": "1..19", "RBs": "1..15", "RH2s": "1..9", "BLANKs": "{1, 2}", "GzIdx": "{1, 2, 3, 4}", "GzDrops": "{0, 1, 5, 9}"}
 
 
